@@ -163,6 +163,12 @@ def equal(a, b):
         return True
     if a is None or b is None:
         return False
+    # a struct written out field by field against an object named as a whole: the object's fields, one by one
+    for x, y in ((a, b), (b, a)):
+        if not is_form(x) and x[0] == "struct" and not any(str(k).startswith("__") for k in x[1]):
+            nm = y[1] if (not is_form(y) and y[0] == "obj") else (list(y)[0] if is_form(y) and len(y) == 1 and ONE not in y and list(y.values())[0] == 1 else None)
+            if isinstance(nm, str) and re.fullmatch(r"[$A-Za-z_][\w.$]*", nm):
+                return all(equal(v, ("obj", f"{nm}.{k}")) for k, v in x[1].items())
     # an opaque object and the variable of the same name are the same thing
     if not is_form(a) and a[0] == "obj":
         a = {a[1]: Fraction(1)}
